@@ -549,7 +549,8 @@ def from_data_header_size(vc):
     d = {'absent': 'absent', 'zero': 0, 'one': 1}[dform]
     lay = writer_layout(vc, directio=d)
     npol = 1 + vc.choose(2, 'num_pols')
-    vc.assume(And(eq(lay.fields['NBITS'], 8), eq(lay.fields['NPOL'], 4 if npol == 2 else 1), lay.fields['OBSNCHAN'] >= 1))
+    nbits = (8, 4)[vc.choose(2, 'num_bits')]
+    vc.assume(And(eq(lay.fields['NBITS'], nbits), eq(lay.fields['NPOL'], 4 if npol == 2 else 1), lay.fields['OBSNCHAN'] >= 1))
     vc.layouts = {'in.0000.raw': lay}
     header_contract(vc, lay)
     vc.interp.call_specs[RU + ':get_blocks_per_file'] = lambda interp, clo, args, kwargs: Int('in_bpf')
@@ -562,7 +563,7 @@ def from_data_header_size(vc):
     fb = mkobj(vc, 'setigen.voltage.polyphase_filterbank:PolyphaseFilterbank', num_taps=taps, num_branches=nb, window=symbolic_array('h', (taps * nb,)),
                window_fn='hamming', cache=None, channelized_stds=None)
     fb.partial = False
-    bps = 2 * npol
+    bps = 2 * npol * nbits // 8
     vc.assume(eq(lay.blocsize % (lay.fields['OBSNCHAN'] * taps * bps), 0))
     cls = classref(vc, BK)
     out = vc.run(lambda: vc.interp.call(vc.interp.getattr(cls, 'from_data'), ['in', src], dict(filterbank=fb, start_chan=0)))
@@ -574,5 +575,16 @@ def from_data_header_size(vc):
     raw = 80 * (lay.ncards + 1)
     vc.lemma('C04/from_data/lemma/ceil-to-512', eq(512 * ceil(raw / 512), raw + (512 - raw % 512) % 512))
     vc.ensure(f'C04/from_data/DIRECTIO-{dform}/post/header_size-equals-the-written-header-size', eq(F['header_size'], lay.hsize))
-    vc.ensure(f'C14/from_data/post/same-framing-as-input', And(eq(F['block_size'], lay.blocsize), eq(F['num_bits'], 8), eq(F['num_chans'], lay.fields['OBSNCHAN']),
+    vc.ensure(f'C14/from_data/post/same-framing-as-input', And(eq(F['block_size'], lay.blocsize), eq(F['num_bits'], nbits), eq(F['num_chans'], lay.fields['OBSNCHAN']),
                                                               eq(F['blocks_per_file'], Int('in_bpf')), eq(F['input_num_blocks'], Int('in_total'))))
+    # the output has the input's bit depth: every requantiser of the backend - and both of its component quantisers - clips to it
+    rqs = [q for row in F['requantizer'] for q in row]
+    vc.ensure(f'C14/from_data/post/requantiser-and-both-components-use-the-input-bit-depth',
+              And(len(rqs) == npol, *[And(eq(q.fields['num_bits'], nbits), eq(q.fields['quantizer_r'].fields['num_bits'], nbits), eq(q.fields['quantizer_i'].fields['num_bits'], nbits)) for q in rqs]))
+
+
+# PKTIDX advances by the backend's samples_per_block (record_framing above); that this attribute is the number of time samples one
+# block of BLOCSIZE bytes holds for *every* antenna / polarisation / bit-depth configuration is C20's constructor contract, discharged
+# again here because "PKTIDX advances by the samples-per-block" is a clause of this property
+from . import c20 as _C20
+contract('C04', 'samples_per_block_matches_block_size', functions=[BK + '.__init__'], mode='int')(_C20.backend_init)
